@@ -207,6 +207,18 @@ func cmdCheck(args []string) int {
 		return engineErr("%v", lerr)
 	}
 	all = append(all, lemObls...)
+	// vacuity guard: the spec prelude (axioms about uninterpreted functions) must not be contradictory
+	{
+		var sb strings.Builder
+		sb.WriteString("(set-logic ALL)\n")
+		for _, c := range specFilesCache {
+			sb.WriteString(c.text)
+			sb.WriteByte('\n')
+		}
+		sb.WriteString("(check-sat)\n")
+		all = append(all, &Obligation{Name: "prelude:consistent", Func: "specs", Kind: "cover", Expect: "notunsat", RawScript: sb.String(),
+			Info: "the axioms of the spec library are not refuted (sat or unknown within the timeout)", timeout: 5, Bank: NewBank()})
+	}
 	work := filepath.Join(outDir, "work", prop)
 	os.RemoveAll(work)
 	if err := Discharge(all, work, timeout); err != nil {
